@@ -4,7 +4,7 @@ import vlib, mirrorcheck
 META = {
     "level": "model_checking",
     "text": "Headers in Mirror.tla carry validator-set ids for the height and the next height; TLC checks that the voting/next-round/committing views always use the set the committed chain prescribes (genesis, then the next-set of the header committed one height below) on chains where the application changes keys and powers at every height, with proposals and replayed headers claiming other sets; the behaviours are replayed on a real Mirror and the oracle compares the real views' full validator sets (keys, powers and both hashes) with the set prescribed by what was committed. StateMachine.tla behaviours (incl. crashes and restarts) are replayed on the real state machine with a driver that changes the set at every height: the finalization store must hold exactly what the driver returned and proposed headers must carry the chain's sets.",
-    "note": "Bounded as C01 with three validator sets. Forged validator LISTS under unchanged hashes are a scripted case on the real Mirror (forged copy first / honest copy first / forged ValidatorSet; predicate ListsMatchHashes), because two header values with one block hash cannot be expressed in Mirror.tla's label-per-hash world. State-machine side: the replay harness's driver changes the vote powers at every height; predicates FinalizationStoresDriverSet and ProposesWithChainSets are evaluated on the real state machine (same keys, all powers scaled, so that StateMachine.tla's 3-of-4 thresholds stay valid).",
+    "note": "Bounded as C01 with three validator sets. Forged validator LISTS under unchanged hashes are a scripted case on the real Mirror (forged copy first / honest copy first / forged ValidatorSet; predicate ListsMatchHashes), because two header values with one block hash cannot be expressed in Mirror.tla's label-per-hash world. State-machine side: the replay harness's driver changes the vote powers at every height; predicates FinalizationStoresDriverSet and ProposesWithChainSets are evaluated on the real state machine (same keys, all powers scaled, so that StateMachine.tla's 3-of-4 thresholds stay valid); StateMachine.tla carries the set ids (curVS/nextVS/finVS, finalization store) and TLC checks C07_SMSets on it; the sets are part of the compared outputs.",
     "technique": "TLA+ spec (Mirror.tla) + TLC exhaustive bounded check + replay on the real Mirror with real-state validator-set comparison",
 }
 
@@ -42,7 +42,8 @@ def run(ctx):
     import smcheck
     sm_plans = [{"cover": True, "universe": "Small", "steps": 5 if q else 6, "crash": True, "rich": False, "cap": 4000 if q else 40000},
                 {"universe": "", "rich": True, "sim": 8 if q else 60, "steps": 10 if q else 13, "crash": True, "cap": 200 if q else 4000, "seeds": 1 if q else 3, "maxh": 4}]
-    scov, smis, sinc = smcheck.collect(ctx, {"C07"}, sm_plans, [])
+    sm_design = [{"steps": 5 if q else 7, "universe": "Small", "crash": True, "rich": True, "maxh": 3, "invariants": ["C07_SMSets"]}]
+    scov, smis, sinc = smcheck.collect(ctx, {"C07"}, sm_plans, sm_design)
     cov["state_machine_validator_sets"] = scov
     cov["behaviours_replayed_on_real_code"] += scov["behaviours_replayed_on_real_code"]
     cov["evaluations"] += scov["evaluations"]
